@@ -99,8 +99,10 @@ Print Assumptions C15_requests_scanner.
 (* 5. Said for a script that is n pages with more pages followed by an answer that is not one:
       the rows are the concatenation of the pages, and there are exactly n+1 requests -- the first
       without paging state, request i+1 with exactly the state of page i -- whatever follows in
-      the script (no request after the page that says it is last).  Hypothesis: the states are not
-      empty (every real server; see Refuted.v for what happens otherwise). *)
+      the script (no request after the page that says it is last).  Assumption on the server: the
+      paging states it hands out are not empty (every server; a zero-length state with
+      has_more_pages is outside the property's quantifier -- Refuted.v shows what the code does
+      then: it sends no state, i.e. the first request again). *)
 Theorem C15_request_carries_previous_state :
   forall R Q (q : Q) posf (pages : list (list R * list Z)) (fin : reply R) rest ls,
   continues fin = false ->
